@@ -150,15 +150,16 @@ theorem chunks_map {α β : Type} (n : Nat) (hn : 0 < n) (f : α → β) (l : Li
   rw [chunks_idx n hn, chunks_idx n hn]
   simp [List.map_map, Function.comp_def, List.map_drop, List.map_take]
 
-/-- `[l[i : i + n] for i in range(0, len(l), n)]` is the model's `chunks n l` -/
-theorem comp_chunks (n : Nat) (hn : 0 < n) (l : List V) (f : V → PyM (Option V))
+/-- `[l[i : i + n] for i in range(0, len(l), n)]` is the model's `chunks n l` (in continuation form) -/
+theorem comp_chunks {α : Type} (n : Nat) (hn : 0 < n) (l : List V) (f : V → PyM (Option V)) (K : V → PyM α)
     (hf : ∀ i : Nat, f (.int (i : Int)) = (do let t ← Py.add (.int (i : Int)) (.int (n : Int)); let u ← Py.slice (.list l) (.int (i : Int)) t; pure (some u))) :
     (do let t10 ← Py.len (.list l)
         let t11 ← Py.rangeStep (.int 0) t10 (.int (n : Int))
-        Py.listComp t11 f) = .ok (.list ((chunks n l).map V.list)) := by
+        let t14 ← Py.listComp t11 f
+        K t14) = K (.list ((chunks n l).map V.list)) := by
   simp only [Py.len, pure_eq_ok, bind_ok, rangeStep_nat _ _ hn]
   rw [listComp_map f (fun v => match v with | .int i => .list ((l.drop i.toNat).take n) | _ => .none)]
-  · rw [chunks_idx n hn]
+  · rw [chunks_idx n hn, bind_ok]
     simp [List.map_map, Function.comp_def]
   · intro x hx
     obtain ⟨i, _, rfl⟩ := List.mem_map.mp hx
@@ -181,5 +182,87 @@ theorem window_eq (msg : List UInt8) (off : Nat) (h : off + 42 ≤ msg.length) :
   · have : off + i < msg.length := by omega
     simp [hi, List.getElem?_take, List.getElem?_drop, List.getD_eq_getElem?_getD, List.getElem?_eq_getElem this]
   · simp [hi, List.getElem?_take]
+
+theorem rangeV_int (a n : Nat) : rangeV a n = (List.range n).map fun (k : Nat) => V.int ((a + k : Nat) : Int) := by
+  unfold rangeV
+  apply List.map_congr_left
+  intro k _
+  simp
+
+theorem toNat_cast (a b : Nat) : ((a : Int) + (b : Int)).toNat = a + b := by omega
+
+theorem c42 : PyCode.c_SCHEDULE_SIZE = .int ((42 : Nat) : Int) := rfl
+theorem c48 : (V.int 48) = .int ((48 : Nat) : Int) := rfl
+
+theorem listComp_id (ys : List V) : Py.listComp (.list ys) (fun v_bit => (do pure (some v_bit) : PyM (Option V))) = .ok (.list ys) := by
+  have := listComp_map (fun v_bit => (do pure (some v_bit) : PyM (Option V))) id ys (fun x _ => rfl)
+  simpa using this
+
+/-- the bits of the 42-byte window, as the code builds them: eight per byte, most significant first -/
+theorem bits_comp (msg : List UInt8) (off : Nat) :
+    (do let t7 ← Py.listComp (.list (rangeV off 42)) (fun v_i => (do
+            let t4 ← Py.index (.bytes msg) v_i
+            let t5 ← PyCode.split_byte t4
+            let t6 ← Py.listComp t5 (fun v_bit => (do pure (some v_bit) : PyM (Option V)))
+            pure (some t6) : PyM (Option V)))
+        Py.flatten t7)
+      = if off + 42 ≤ msg.length then .ok (.list (((window msg off).flatMap splitByte).map V.bool)) else .error .IndexError := by
+  rw [rangeV_int]
+  rw [listComp_all _ (fun v => match v with
+        | .int i => V.list ((splitByte (msg.getD i.toNat 0)).map V.bool)
+        | _ => V.none)
+      (fun v => match v with
+        | .int i => decide (i.toNat < msg.length)
+        | _ => false) PyErr.IndexError]
+  · by_cases h : off + 42 ≤ msg.length
+    · have hall : ((List.range 42).map fun (k : Nat) => V.int ((off + k : Nat) : Int)).all (fun v => match v with
+          | .int i => decide (i.toNat < msg.length)
+          | _ => false) = true := by
+        simp only [List.all_map, List.all_eq_true, List.mem_range, Function.comp_def]
+        intro k hk
+        simp; omega
+      rw [if_pos hall, if_pos h, bind_ok]
+      have : ((List.range 42).map fun (k : Nat) => V.int ((off + k : Nat) : Int)).map (fun v => match v with
+            | .int i => V.list ((splitByte (msg.getD i.toNat 0)).map V.bool)
+            | _ => V.none)
+          = ((window msg off).map fun b => (splitByte b).map V.bool).map V.list := by
+        simp [window, List.map_map, Function.comp_def, toNat_cast]
+      rw [this, flatten_lists]
+      simp [List.flatMap, List.map_flatten, List.map_map, Function.comp_def]
+    · have hall : ¬ ((List.range 42).map fun (k : Nat) => V.int ((off + k : Nat) : Int)).all (fun v => match v with
+          | .int i => decide (i.toNat < msg.length)
+          | _ => false) = true := by
+        simp only [List.all_map, List.all_eq_true, List.mem_range, Function.comp_def]
+        intro hcon
+        have := hcon 41 (by omega)
+        simp [toNat_cast] at this
+        omega
+      rw [if_neg hall, if_neg h, bind_err]
+  · intro x hx hp
+    obtain ⟨k, _, rfl⟩ := List.mem_map.mp hx
+    have hk : off + k < msg.length := by simpa [toNat_cast] using hp
+    simp only [index_bytes_nat, List.getElem?_eq_getElem hk, bind_ok, TieSchedule.split_byte_eq, listComp_id]
+    simp [List.getD_eq_getElem?_getD, List.getElem?_eq_getElem hk, toNat_cast]
+  · intro x hx hp
+    obtain ⟨k, _, rfl⟩ := List.mem_map.mp hx
+    have hk : msg.length ≤ off + k := by simpa [toNat_cast] using hp
+    simp only [index_bytes_nat, List.getElem?_eq_none hk, bind_err]
+
+/-- **`_unpack_schedule`**: the 42 bytes at `self._offset` as 7 days of 48 half-hour slots (`Sched.decodeWeek`), `_offset`
+advanced by 42; IndexError when fewer than 42 bytes are left -/
+theorem unpack_schedule_eq (c : String) (ks : List String) (vs : List V) (msg : List UInt8) (off : Nat) :
+    PyCode.SchedulesStructure_unpack_schedule (withOff c ks vs off) (.bytes msg)
+      = if off + 42 ≤ msg.length then .ok (weekV (decodeWeek ((msg.drop off).take 42)), withOff c ks vs (off + 42))
+        else .error .IndexError := by
+  unfold PyCode.SchedulesStructure_unpack_schedule
+  simp only [getattr_withOff, bind_ok, c42, add_int', ← Int.natCast_add, range_nat, Nat.add_sub_cancel_left]
+  have hb := bits_comp msg off
+  rw [← bind_assoc, hb]
+  by_cases h : off + 42 ≤ msg.length
+  · rw [if_pos h, if_pos h, bind_ok, setattr_withOff, bind_ok]
+    rw [c48, comp_chunks 48 (by omega) _ _ _ (fun i => rfl)]
+    rw [window_eq msg off h, chunks_map 48 (by omega)]
+    simp [weekV, decodeWeek, slotsPerDay, List.map_map, Function.comp_def]
+  · rw [if_neg h, if_neg h, bind_err]
 
 end PlumVerif.TieStructSchedules
